@@ -53,7 +53,7 @@ func c12Check(p batchParams, out *batchObs) func(res *vrt.Result) *explore.Findi
 			for j, a := range as {
 				// sent to the region owning the key (the executor answers NSRE otherwise, which is
 				// legitimate only for a scripted 'not serving' outcome)
-				if a.Outcome == sim.ClsNSRE && !strings.Contains(p.scripts[i], "N") && p.event != "droptable" {
+				if a.Misrouted() && !strings.Contains(p.scripts[i], "N") && p.event != "droptable" {
 					return &explore.Finding{Class: "call-sent-to-wrong-region-or-server", Msg: fmt.Sprintf("call %d attempt %d refused as not serving%s", i, j, show())}
 				}
 				if j > 0 {
